@@ -2,7 +2,7 @@
    "flushed f" = the durable length of f (moved only by Sync events: fsync / msync) is its size.
    That an fsync / msync makes the bytes durable is the OS contract (not modelled further). *)
 From KV Require Import Bytes GenConsts Chunk Record Engine Script AMapLemmas EngineFiles EngineInv EngineBatch
-  EngineRefine EngineLog EngineRecover EngineSync.
+  EngineRefine EngineLog EngineRecover EngineSync EngineCrash EngineOpen EngineAdopt EngineMerge EngineKeep EngineMergeRun EngineSyncMerge.
 Open Scope N_scope.
 
 (* The sync invariant holds at every return of every public call of every history (Put, Delete,
@@ -22,6 +22,33 @@ Proof.
   exact (run_sync ops d0 k0 [] s' rs evs HL (open_empty_sync c d0 k0 evs0 Hopen) Hnm Hok Hrun).
 Qed.
 Print Assumptions C13_sync_invariant_every_step.
+
+(* The same for histories with merges anywhere (each scanning its files in any covering order), restarts that
+   adopt a finished merge, ignore an abandoned one, or follow an adopted one: Merge flushes the file it
+   rotates away from, only reads its input files, and closes - hence flushes - every rewritten file before
+   the marker is written; the adopting Open installs closed, flushed files.  SyncG adds to the invariant
+   that the files of a finished merge waiting in the side directory are closed and flushed. *)
+Theorem C13_sync_invariant_with_merges :
+  forall c ops d k evs0 s' rs evs,
+  db_open c empty_disk = (OpenOk d k, evs0) ->
+  ops_ok (d, k) ops ->
+  run (d, k) ops = (s', rs, evs) ->
+  SyncInv (fst s').
+Proof.
+  intros c ops d k evs0 s' rs evs Hopen Hok Hrun.
+  destruct (open_empty_G c) as (d0 & k0 & e0 & Ho & HG). rewrite Hopen in Ho. injection Ho as <- <- _.
+  destruct (open_empty_log c) as (d1 & k1 & e1 & Ho1 & _ & Hnm). rewrite Hopen in Ho1. injection Ho1 as <- <- _.
+  assert (HS : SyncG d k).
+  { split; [exact (open_empty_sync c d k evs0 Hopen)|]. unfold MergeFlushed. rewrite Hnm. exact I. }
+  exact (proj1 (run_sync_G ops d k [] s' rs evs HG HS Hok Hrun)).
+Qed.
+Print Assumptions C13_sync_invariant_with_merges.
+
+Theorem C13_step_with_merges :
+  forall d k M o d' k' r evs,
+  G d k M -> SyncG d k -> gop_ok d o -> step (d, k) o = ((d', k'), r, evs) -> SyncG d' k'.
+Proof. exact step_sync_G. Qed.
+Print Assumptions C13_step_with_merges.
 
 (* Always: a successful Put returns with the active file flushed (and every older file flushed).
    Threshold (BytesPerSync > 0): it returns with fewer than BytesPerSync unflushed bytes of
